@@ -47,6 +47,12 @@ const (
 	pCmt // committee multi-signature account
 	pR   // contract without onNEP11Payment (testdata/caller)
 	pPayer
+	// on chains with a committee of n > 1 keys (NewEnvN): multisig accounts
+	// over the very committee keys that are NOT the committee account of
+	// checkCommittee (unless their threshold coincides, see canon)
+	pHalf   // n/2-of-n (even n), (n-1)/2-of-n (odd n)
+	pAlpha  // 2n/3+1-of-n
+	pMember // a single committee member
 	nPrincipals
 )
 
@@ -71,6 +77,8 @@ type nnsEnv struct {
 	payer   neotest.Signer
 	signers [nPrincipals]neotest.Signer // nil for contracts
 	hashes  [nPrincipals]util.Uint160
+	ncmt    int              // committee size
+	canon   [nPrincipals]int // accounts with equal script hash are one principal
 	now     uint64
 }
 
@@ -83,10 +91,22 @@ func nnsKey(i int) *wallet.Account {
 	return wallet.NewAccountFromPrivateKey(pk)
 }
 
-func newNNSEnv(t testing.TB) *nnsEnv {
-	v := NewEnv(t)
+func newNNSEnv(t testing.TB) *nnsEnv { return newNNSEnvN(t, 1) }
+
+// newNNSEnvN: committee of ncmt keys. The committee account of the property
+// (and of the model's context) is the n/2+1-of-n multisig of neo.GetCommittee().
+func newNNSEnvN(t testing.TB, ncmt int) *nnsEnv {
+	var v *Env
+	var vn *EnvN
+	if ncmt <= 1 {
+		ncmt = 1
+		v = NewEnv(t)
+	} else {
+		vn = NewEnvN(t, ncmt)
+		v = vn.Env
+	}
 	e := v.E
-	n := &nnsEnv{Env: v}
+	n := &nnsEnv{Env: v, ncmt: ncmt}
 	gas, err := e.Chain.GetNativeContractScriptHash(nativenames.Gas)
 	require.NoError(t, err)
 	n.payer = neotest.NewSingleSigner(nnsKey(100))
@@ -113,8 +133,47 @@ func newNNSEnv(t testing.TB) *nnsEnv {
 	n.hashes[pCmt] = e.CommitteeHash
 	n.signers[pPayer] = n.payer
 	n.hashes[pPayer] = n.payer.ScriptHash()
+	if vn != nil {
+		half := ncmt / 2
+		if ncmt%2 == 1 {
+			half = (ncmt - 1) / 2
+		}
+		require.Equal(t, vn.Majority.ScriptHash(), e.CommitteeHash)
+		n.signers[pHalf] = MultiSignerOf(half, vn.Keys)
+		n.signers[pAlpha] = vn.Alphabet
+		n.signers[pMember] = neotest.NewSingleSigner(wallet.NewAccountFromPrivateKey(vn.Keys[0]))
+		for _, i := range []int{pHalf, pAlpha, pMember} {
+			n.hashes[i] = n.signers[i].ScriptHash()
+		}
+	}
+	for i := range n.canon {
+		n.canon[i] = i
+		for j := 0; j < i; j++ {
+			if n.signers[i] != nil && n.hashes[j] == n.hashes[i] {
+				n.canon[i] = j
+				break
+			}
+		}
+	}
 	n.now = e.TopBlock(t).Timestamp
 	return n
+}
+
+// canonSigners replaces aliases (e.g. 2n/3+1 = n/2+1 for n = 4) by the
+// principal they coincide with and drops accounts this chain does not have.
+func (n *nnsEnv) canonSigners(sg []int) []int {
+	var out []int
+	for _, i := range sg {
+		if n.signers[i] == nil {
+			continue
+		}
+		i = n.canon[i]
+		if !has(out, i) {
+			out = append(out, i)
+		}
+	}
+	sort.Ints(out)
+	return out
 }
 
 // symbolic address of principal i as written to Coq
@@ -122,7 +181,7 @@ func symAddr(i int) []byte { return bytes.Repeat([]byte{byte(0x11 * (i + 1))}, 2
 
 func (n *nnsEnv) principalOf(b []byte) int {
 	for i := 0; i < nPrincipals; i++ {
-		if bytes.Equal(b, n.hashes[i].BytesBE()) {
+		if (i < pHalf || n.signers[i] != nil) && bytes.Equal(b, n.hashes[i].BytesBE()) {
 			return i
 		}
 	}
@@ -595,7 +654,7 @@ var nnsNames = []nnsName{
 }
 
 // well-formed names that are not observed
-var nnsExtraValid = []string{"net", "a.net"}
+var nnsExtraValid = []string{"net", "a.net", "v.w.x.a.com"}
 
 func nnsValidNames() []string {
 	var out []string
@@ -723,11 +782,14 @@ func (b *nnsBook) update(o nnsOp, ob nnsObs) {
 // Generator
 
 type nnsGen struct {
-	r    *rand.Rand
-	prop string
-	book *nnsBook
-	mon  *nnsMon
-	now  uint64
+	r     *rand.Rand
+	prop  string
+	book  *nnsBook
+	mon   *nnsMon
+	now   uint64
+	ncmt  int
+	scn   bool           // inject the "expire -> parent gains deeper records -> re-register" scenario
+	queue []func() nnsOp // scripted ops, emitted before anything random
 }
 
 func (g *nnsGen) pick(ws ...int) int {
@@ -837,7 +899,7 @@ func (g *nnsGen) role(name string) []int {
 	case 0:
 		ps = []int{i.owner}
 		if i.owner == ownNull && i.registered {
-			ps = []int{pCmt}
+			ps = g.cmtSigners()
 		}
 	case 1:
 		ps = []int{i.admin}
@@ -850,7 +912,7 @@ func (g *nnsGen) role(name string) []int {
 	case 5:
 		ps = []int{g.stranger(i.owner, i.admin)}
 	case 6:
-		ps = []int{pCmt}
+		ps = g.cmtSigners()
 	case 7:
 		ps = nil
 	}
@@ -861,6 +923,29 @@ func (g *nnsGen) role(name string) []int {
 		ps = append(ps, g.r.Intn(3))
 	}
 	return ps
+}
+
+// cmtSigners: who signs a committee-gated call. On multi-key committees:
+// the majority account, a half-committee account over the same keys, the
+// 2n/3+1 account, a single member, a stranger.
+func (g *nnsGen) cmtSigners() []int {
+	if g.ncmt > 1 {
+		switch g.pick(50, 18, 12, 10, 10) {
+		case 1:
+			return []int{pHalf}
+		case 2:
+			return []int{pAlpha}
+		case 3:
+			return []int{pMember}
+		case 4:
+			return []int{g.r.Intn(3)}
+		}
+		return []int{pCmt}
+	}
+	if g.r.Intn(7) == 0 {
+		return []int{g.r.Intn(3)}
+	}
+	return []int{pCmt}
 }
 
 func (g *nnsGen) expire() int64 {
@@ -962,19 +1047,81 @@ func (g *nnsGen) typ() int64 {
 	return []int64{0, 2, 255, -250, -255, 300, 1281}[g.r.Intn(7)]
 }
 
+// scenario: a sub-name expires, the enclosing name (now its token) gains
+// records of names below it, then isAvailable / re-registration (takeover) of
+// the expired name are tried — at level 3 or 4, at exp-1 / exp / exp+1, with
+// and without removing the records again.
+func (g *nnsGen) scenario() {
+	r := g.r
+	P, S, D := "b.com", "x.b.com", "w.x.b.com"
+	if r.Intn(2) == 0 {
+		P, S, D = "x.a.com", "w.x.a.com", "v.w.x.a.com"
+	}
+	oP, oS, oN := r.Intn(3), nnsOwners[r.Intn(len(nnsOwners))], nnsOwners[r.Intn(len(nnsOwners))]
+	q := func(f func() nnsOp) { g.queue = append(g.queue, f) }
+	mk := func(o nnsOp, t uint64, ps ...int) nnsOp {
+		o.T = t
+		o.Signers, o.Via = signFor(ps)
+		return o
+	}
+	own := func(n string) int { return g.book.get(n).owner }
+	soon := func() uint64 { return g.now + 1 + uint64(r.Intn(20)) }
+	reg := func(name string, owner int, ex int64) {
+		q(func() nnsOp {
+			return mk(nnsOp{Kind: "register", Name: name, Owner: owner, Email: "e@x.io", Refresh: 1, Retry: 2, Expire: ex, TTL: 4},
+				soon(), owner, own(nnsParent(name)))
+		})
+	}
+	if nnsLevel(P) == 3 {
+		reg("a.com", r.Intn(3), 9*31536000)
+	}
+	reg(P, oP, 9*31536000)
+	reg(S, oS, int64(1+r.Intn(2)))
+	if r.Intn(2) == 0 {
+		q(func() nnsOp { return mk(nnsOp{Kind: "addRecord", Name: S, Typ: tTXT, Data: "t1"}, soon(), own(S)) })
+	}
+	// the first op at/around the expiration instant of S: a record of a deeper name
+	dt := []int64{-1, 0, 0, 1}[r.Intn(4)]
+	kD := r.Intn(2)
+	dTyp, dData := []int64{tTXT, tA}[kD], []string{"t2", "1.2.3.4"}[kD]
+	q(func() nnsOp {
+		t := uint64(int64(g.book.get(S).exp) + dt)
+		if !g.book.get(S).registered || t <= g.now {
+			t = soon()
+		}
+		return mk(nnsOp{Kind: "addRecord", Name: D, Typ: dTyp, Data: dData}, t, own(g.book.token(D, t)))
+	})
+	q(func() nnsOp { return mk(nnsOp{Kind: "isAvailable", Name: S}, soon()) })
+	reg(S, oN, 3600)
+	if dt < 0 {
+		reg(S, oN, 3600) // one more try after the boundary
+	}
+	if r.Intn(2) == 0 {
+		q(func() nnsOp {
+			t := soon()
+			return mk(nnsOp{Kind: "deleteRecords", Name: D, Typ: dTyp}, t, own(g.book.token(D, t)))
+		})
+		reg(S, oN, 3600)
+	}
+	q(func() nnsOp { return mk(nnsOp{Kind: "isAvailable", Name: S}, soon()) })
+}
+
 func (g *nnsGen) next(step int) nnsOp {
+	if step == 6 && g.scn {
+		g.scenario()
+	}
+	if len(g.queue) > 0 {
+		f := g.queue[0]
+		g.queue = g.queue[1:]
+		return f()
+	}
 	t := g.nextTime()
 	mk := func(o nnsOp, ps []int) nnsOp {
 		o.T = t
 		o.Signers, o.Via = signFor(ps)
 		return o
 	}
-	cmt := func() []int {
-		if g.r.Intn(7) == 0 {
-			return []int{g.r.Intn(3)}
-		}
-		return []int{pCmt}
-	}
+	cmt := func() []int { return g.cmtSigners() }
 	email := func() string {
 		if g.r.Intn(40) == 0 {
 			return nnsEmails[g.r.Intn(len(nnsEmails))]
@@ -1186,7 +1333,58 @@ func nnsReaders(prop string) []nnsOp {
 // Corpus: hand-written boundary histories, run first. Times are offsets from
 // the chain's time at the start of the history.
 
-func nnsCorpus(prop string) [][]nnsOp {
+// nnsCorpusN: the committee-gated methods under every kind of account that
+// can be built from the committee keys, on committees of 4 (n/2+1 = 3 = 2n/3+1,
+// half = 2) and of 3 keys (n/2+1 = 2, 2n/3+1 = 3, half = 1).
+func nnsCorpusN(prop string) []nnsHist {
+	if prop == "C12" {
+		return nil
+	}
+	const Y = int64(31536000)
+	var out []nnsHist
+	for _, ncmt := range []int{4, 3} {
+		var h []nnsOp
+		t := uint64(0)
+		add := func(o nnsOp, ps ...int) {
+			t++
+			o.T = t
+			o.Signers, o.Via = signFor(ps)
+			h = append(h, o)
+		}
+		add(nnsOp{Kind: "setPrice", Price: 1000}, pCmt)
+		add(nnsOp{Kind: "registerTLD", Name: "com", Email: "e@x.io", Refresh: 1, Retry: 2, Expire: 100 * Y, TTL: 4}, pCmt)
+		add(nnsOp{Kind: "register", Name: "a.com", Owner: pCmt, Email: "e@x.io", Refresh: 1, Retry: 2, Expire: 3600, TTL: 4}, pCmt)
+		for i, ps := range [][]int{{pHalf}, {pAlpha}, {pMember}, {pU0}, {pHalf, pMember, pU0}, {}, {pCmt}, {pCmt, pHalf}} {
+			add(nnsOp{Kind: "setPrice", Price: int64(2000 + i)}, ps...)
+			add(nnsOp{Kind: "registerTLD", Name: "org", Email: "e@x.io", Refresh: 1, Retry: 2, Expire: 0, TTL: 4}, ps...)
+			add(nnsOp{Kind: "renew", Name: "com", Years: 1}, ps...)
+			add(nnsOp{Kind: "updateSOA", Name: "com", Email: "ops@nspcc.ru", Refresh: 5, Retry: 6, Expire: 7, TTL: int64(8 + i)}, ps...)
+			if prop == "C11" {
+				// a name owned by the committee ACCOUNT (20 bytes) follows the same account
+				add(nnsOp{Kind: "addRecord", Name: "a.com", Typ: tTXT, Data: fmt.Sprintf("r%d", i)}, ps...)
+				add(nnsOp{Kind: "transfer", Name: "a.com", Owner: pCmt}, ps...)
+			}
+		}
+		out = append(out, nnsHist{ncmt, h})
+	}
+	return out
+}
+
+// nnsHist is a corpus history with the committee size of its chain.
+type nnsHist struct {
+	N   int
+	Ops []nnsOp
+}
+
+func nnsCorpus(prop string) []nnsHist {
+	var out []nnsHist
+	for _, h := range nnsCorpus1(prop) {
+		out = append(out, nnsHist{1, h})
+	}
+	return append(out, nnsCorpusN(prop)...)
+}
+
+func nnsCorpus1(prop string) [][]nnsOp {
 	const Y = int64(31536000)
 	var h []nnsOp
 	t := uint64(0)
@@ -1254,6 +1452,17 @@ func nnsCorpus(prop string) [][]nnsOp {
 		add(nnsOp{Kind: "registerTLD", Name: "org", Email: "e@x.io", Refresh: 1, Retry: 2, Expire: 3600, TTL: 4}, pU0)
 		add(nnsOp{Kind: "registerTLD", Name: "org", Email: "e@x.io", Refresh: 1, Retry: 2, Expire: 3600, TTL: 4}, pCmt)
 		tick()
+		out = append(out, h)
+		// 4: takeover of an expired sub-name while the parent holds records below it
+		start()
+		reg("a.com", pU0, 9*Y, pU0)
+		reg("x.a.com", pU1, 2, pU0, pU1) // t=4, exp 2004
+		at(2003)
+		tick()
+		rec("addRecord", "w.x.a.com", tTXT, 0, "t2", pU0) // t = exp: lands under a.com
+		reg("x.a.com", pU2, 3600, pU0, pU2)               // refused: accounting must not move
+		rec("deleteRecords", "w.x.a.com", tTXT, 0, "", pU0)
+		reg("x.a.com", pU2, 3600, pU0, pU2) // takeover U1 -> U2
 		out = append(out, h)
 		// 3: price, degenerate lifetimes and owners
 		h, t = nil, 0
@@ -1431,6 +1640,38 @@ func nnsCorpus(prop string) [][]nnsOp {
 		rec("deleteRecords", "w.x.a.com", tTXT, 0, "", pU1) // t = exp: token is a.com now
 		rec("addRecord", "w.x.a.com", tTXT, 0, "t2", pU1)
 		out = append(out, h)
+		// 9: level 3 — x.a.com expires, a.com (now the token of everything below)
+		// gains a record of w.x.a.com: isAvailable(x.a.com) is false and the
+		// re-registration (takeover) is refused until the record is gone
+		start()
+		reg("a.com", pU0, 9*Y, pU0)
+		reg("x.a.com", pU1, 2, pU0, pU1) // t=4, exp 2004
+		rec("addRecord", "x.a.com", tTXT, 0, "t1", pU1)
+		at(2004)
+		add(nnsOp{Kind: "isAvailable", Name: "x.a.com"})
+		rec("addRecord", "w.x.a.com", tTXT, 0, "t2", pU0)
+		add(nnsOp{Kind: "isAvailable", Name: "x.a.com"})
+		reg("x.a.com", pU2, 3600, pU0, pU2)
+		reg("x.a.com", pU1, 3600, pU0, pU1)
+		rec("deleteRecords", "w.x.a.com", tTXT, 0, "", pU0)
+		add(nnsOp{Kind: "isAvailable", Name: "x.a.com"})
+		reg("x.a.com", pU2, 3600, pU0, pU2)
+		out = append(out, h)
+		// 10: level 4 — the same one level down (token x.a.com, expired w.x.a.com,
+		// record of v.w.x.a.com), re-registration through the contract owner
+		start()
+		reg("a.com", pU0, 9*Y, pU0)
+		reg("x.a.com", pU1, 9*Y, pU0, pU1)
+		reg("w.x.a.com", pU2, 2, pU1, pU2) // t=5, exp 2005
+		at(2004)
+		rec("addRecord", "v.w.x.a.com", tA, 0, "1.2.3.4", pU2) // exp-1: under w.x.a.com itself
+		rec("addRecord", "v.w.x.a.com", tA, 0, "1.2.3.4", pU1) // exp: under x.a.com
+		add(nnsOp{Kind: "isAvailable", Name: "w.x.a.com"})
+		reg("w.x.a.com", pC, 3600, pU1, pC)
+		rec("deleteRecords", "v.w.x.a.com", tA, 0, "", pU1)
+		reg("w.x.a.com", pC, 3600, pU1, pC)
+		add(nnsOp{Kind: "resolve", Name: "v.w.x.a.com", Typ: tA}) // the older record, under w.x.a.com again
+		out = append(out, h)
 		// 7: expiry hides the records, re-registration by somebody else shows them again
 		start()
 		reg("a.com", pU0, 2, pU0) // exp 2003
@@ -1458,7 +1699,6 @@ type nnsMon struct {
 	owner   map[string]int      // replay of the Transfer notifications
 	recs    map[string][]string // token|name|type byte -> data list (spec of C12)
 	dupBy   map[string]bool     // keys whose duplicate was made by setRecord (F14)
-	anyRec  bool
 	hist    []string
 	deepSub int
 }
@@ -1477,6 +1717,20 @@ func (m *nnsMon) keys() []string {
 	}
 	sort.Strings(ks)
 	return ks
+}
+
+// conflict: a record kept under the token of the directly enclosing name
+// whose name has `name` as a proper suffix (getParentConflictingRecord; the
+// storage location does not depend on time). Returns that record's name.
+func (m *nnsMon) conflict(name string) string {
+	par := nnsParent(name)
+	for _, k := range m.keys() {
+		f := strings.Split(k, "|")
+		if f[0] == par && len(f[1]) > len(name) && strings.HasSuffix(f[1], name) {
+			return f[1]
+		}
+	}
+	return ""
 }
 
 func (m *nnsMon) violate(f string, a ...any) { m.st.AddViolation(fmt.Sprintf(f, a...), m.hist) }
@@ -1623,7 +1877,6 @@ func (m *nnsMon) step(o nnsOp, ob *nnsObs) {
 	if effect {
 		switch o.Kind {
 		case "addRecord":
-			m.anyRec = true
 			k := rkeyOf(tokPre, o.Name, o.Typ)
 			m.recs[k] = append(m.recs[k], o.Data)
 		case "setRecord":
@@ -1663,20 +1916,23 @@ func (m *nnsMon) step(o nnsOp, ob *nnsObs) {
 			delete(m.recs, k)
 			delete(m.dupBy, k)
 		case "register":
-			if o.Expire <= 0 {
-				m.anyRec = true // dead on arrival: its SOA record lands under the enclosing token
-			}
-			par := nnsParent(o.Name)
-			for k, v := range m.recs {
-				f := strings.Split(k, "|")
-				if f[0] == par && len(v) > 0 && len(f[1]) > len(o.Name) && strings.HasSuffix(f[1], o.Name) {
-					m.violate("C12: %s registered while the parent holds records of %s", o.Name, f[1])
-				}
+			// judged on the state the call found (the spec of the records at the
+			// op's instant, before this registration adds anything): first
+			// registration and re-registration of an expired name alike
+			if c := m.conflict(o.Name); c != "" {
+				m.violate("%s: %s registered while the parent token holds records of %s", m.prop, o.String(), c)
 			}
 		}
 	}
 	m.book.update(o, *ob)
 	b := m.book
+	if effect && o.Kind == "register" && o.Expire <= 0 {
+		// dead on arrival: its SOA record lands under the enclosing live token
+		// (tokenIDFromName after the name state is written) and stays there
+		if tok := b.token(o.Name, now); tok != o.Name {
+			m.recs[rkeyOf(tok, o.Name, tSOA)] = []string{"<soa>"}
+		}
+	}
 
 	// ---- C10: accounting
 	if m.prop == "C10" {
@@ -1737,8 +1993,12 @@ func (m *nnsMon) step(o nnsOp, ob *nnsObs) {
 				if live && (!av.ok || av.b) {
 					m.violate("C10: %s is live but isAvailable is not false", nm)
 				}
-				if !live && !m.anyRec && (!av.ok || !av.b) {
+				cf := m.conflict(nm)
+				if !live && cf == "" && (!av.ok || !av.b) {
 					m.violate("C10: %s is unregistered/expired under a live parent but isAvailable is not true", nm)
+				}
+				if !live && cf != "" && (!av.ok || av.b) {
+					m.violate("C10: isAvailable(%s) is not false although the parent token holds records of %s", nm, cf)
 				}
 			}
 		}
@@ -1823,6 +2083,13 @@ func (m *nnsMon) step(o nnsOp, ob *nnsObs) {
 						}
 						seen[d] = true
 					}
+				}
+			case "isAvailable":
+				if v.ok && v.b && (b.chainLive(nm, now) || m.conflict(nm) != "") {
+					m.violate("C12: isAvailable(%s) = true although it is live or the parent token holds records of %q", nm, m.conflict(nm))
+				}
+				if v.ok && !v.b && !b.chainLive(nm, now) && m.conflict(nm) == "" {
+					m.violate("C12: isAvailable(%s) = false although it is not live and no parent record conflicts", nm)
 				}
 			case "resolve":
 				want, ok := follow(r.Name, r.Typ, 2)
@@ -1917,18 +2184,26 @@ func runNNSFamily(t *testing.T, prop string) {
 	var dataTable []string
 	distinct := map[string]bool{}
 	reasons := map[string]int{}
+	cmtSizes := map[int]int{}
 	deep := 0
-	run := func(hidx int, corpus []nnsOp) {
-		n := newNNSEnv(t)
+	run := func(hidx int, ncmt int, corpus []nnsOp) {
+		n := newNNSEnvN(t, ncmt)
 		lit.n = n
 		base := n.now
-		g := &nnsGen{r: Rng(int64(hidx) + 7777), prop: prop, book: nil, now: base}
+		cmtSizes[n.ncmt]++
+		g := &nnsGen{r: Rng(int64(hidx) + 7777), prop: prop, book: nil, now: base, ncmt: n.ncmt}
 		mon := newNNSMon(prop, st, readers)
 		g.book = mon.book
 		g.mon = mon
 		nops := len(corpus)
 		if corpus == nil {
 			nops = 8 + Rng(int64(hidx)).Intn(maxOps-7)
+			if (prop == "C12" || prop == "C10") && hidx%3 == 0 {
+				g.scn = true
+				if nops < 20 {
+					nops = 20
+				}
+			}
 		}
 		var steps []string
 		var prevVec []string
@@ -1943,6 +2218,7 @@ func runNNSFamily(t *testing.T, prop string) {
 				g.now = n.now
 				o = g.next(i)
 			}
+			o.Signers = n.canonSigners(o.Signers)
 			if o.Kind == "addRecord" || o.Kind == "setRecord" {
 				k := fmt.Sprintf("%d|%s", o.Typ, o.Data)
 				if !usedData[k] {
@@ -2006,11 +2282,21 @@ func runNNSFamily(t *testing.T, prop string) {
 		}
 	}
 	for ci, h := range nnsCorpus(prop) {
-		run(-1-ci, h)
+		run(-1-ci, h.N, h.Ops)
 	}
 	for h := 0; h < nh; h++ {
-		run(h, nil)
+		// part of the histories on chains with committees of 4 and of 3 keys:
+		// n/2+1 differs from (n+1)/2 for even n, from 2n/3+1 for n = 3
+		ncmt := 1
+		switch {
+		case prop == "C11" && h%3 == 1, prop == "C10" && h%5 == 1:
+			ncmt = 4
+		case prop == "C11" && h%3 == 2, prop == "C10" && h%5 == 3:
+			ncmt = 3
+		}
+		run(h, ncmt, nil)
 	}
+	st.Extra["histories_by_committee_size"] = cmtSizes
 	st.DistinctNontrivial = len(distinct)
 	st.Extra["readers_per_step"] = len(readers)
 	st.Extra["fault_reasons"] = reasons
